@@ -91,6 +91,9 @@ Proof.
   apply tab_length.
 Qed.
 
+Lemma un_len (x : fQ) u r : C01.run x (C01.OUn u) = Ok r -> length (avals r) = length (avals x).
+Proof. destruct u; simpl; intros H; injection H as <-; simpl; apply map_length. Qed.
+
 Arguments add_result : simpl never.
 Arguments add_view : simpl never.
 Arguments write_back : simpl never.
@@ -108,7 +111,10 @@ Proof.
   - destruct y as [j|c|v]; simpl; auto.
     + destruct (nth_error (arrs h) j); simpl; auto. apply inv_add_result; auto.
     + apply inv_add_result; auto.
-  - apply inv_add_result; auto.
+  - destruct u; simpl; (destruct inplace; simpl;
+      [apply inv_rebind; auto; simpl; rewrite map_length; unfold as_farr, vals_of; simpl; rewrite map_length;
+       destruct Ha as (_ & _ & Hl); exact Hl
+      | apply inv_add_result; auto]).
   - destruct (tuple_to_letters Qc (as_farr h a) xs); simpl; auto.
     destruct (Nat.eqb _ _).
     + destruct (get_subset _ _); simpl; auto.
@@ -170,6 +176,7 @@ Proof.
   - destruct y as [j|c|v]; simpl; auto.
     + destruct (nth_error (arrs h) j); simpl; auto. apply add_result_raise.
     + apply add_result_raise.
+  - destruct u; simpl; (destruct inplace; simpl; [discriminate | apply add_result_raise]).
   - destruct (tuple_to_letters Qc (as_farr h a) xs); simpl; auto.
     destruct (Nat.eqb _ _); [|apply add_result_raise].
     destruct (get_subset _ _); simpl; auto.
@@ -205,6 +212,7 @@ Definition in_place (o : hop) : bool :=
   match o with
   | HSet _ _ _ | HSetValues _ _ | HSetValuesArr _ _ | HRawFill _ _ => true
   | HCumsum _ _ ip => ip
+  | HUn _ _ ip => ip
   | _ => false
   end.
 
@@ -238,6 +246,7 @@ Proof.
   - destruct y as [j|c|v]; simpl; try apply extends_refl.
     + destruct (nth_error (arrs h) j); simpl; [apply extends_add_result | apply extends_refl].
     + apply extends_add_result.
+  - subst inplace. destruct u; simpl; apply extends_add_result.
   - destruct (tuple_to_letters Qc (as_farr h a) xs); simpl; [|apply extends_refl].
     destruct (Nat.eqb _ _); [|apply extends_add_result].
     destruct (get_subset _ _); simpl; [|apply extends_refl].
@@ -256,8 +265,9 @@ Qed.
    allocated in a buffer that did not exist before: they share memory with no earlier array *)
 Definition independent_result (o : hop) : bool :=
   match o with
-  | HCopy _ | HFullLike _ _ | HBin _ _ _ | HUn _ _ | HCast _ _ | HShares _ _ | HGet _ _ | HNew _ _ => true
+  | HCopy _ | HFullLike _ _ | HBin _ _ _ | HCast _ _ | HShares _ _ | HGet _ _ | HNew _ _ => true
   | HCumsum _ _ ip => negb ip
+  | HUn _ _ ip => negb ip
   | _ => false
   end.
 
@@ -280,6 +290,7 @@ Proof.
   - destruct y as [j|c|v]; simpl in Hs; try discriminate.
     + destruct (nth_error (arrs h) j); [apply (fresh_add_result _ _ _ Hs) | discriminate].
     + apply (fresh_add_result _ _ _ Hs).
+  - destruct inplace; [discriminate|]. destruct u; simpl in Hs; apply (fresh_add_result _ _ _ Hs).
   - destruct (cumsum Qc QO Qcplus (as_farr h a) l); [|discriminate].
     destruct inplace; [discriminate|]. apply (fresh_add_result _ _ _ Hs).
 Qed.
